@@ -424,8 +424,35 @@ def impl(op, backend):
     old = (p._WEEK_STARTS_AT, p._WEEK_ENDS_AT)
     signal.setitimer(signal.ITIMER_REAL, 5.0)
     try:
-        p.week_starts_at(p.WeekDay(wks))
-        p.week_ends_at(p.WeekDay(_wke(wks)))
+        # The week configuration is global state: reach the requested configuration through different call SEQUENCES
+        # (order of the two setters, week operations evaluated in between, a different configuration before), chosen
+        # deterministically from the op - the result must depend on the final configuration only.
+        hist = (w // 1000003 + wks + len(unit)) % 4
+
+        def probe():
+            try:
+                x.start_of("week")
+                x.end_of("week")
+            except Exception:  # noqa: BLE001
+                pass
+        if hist == 0:
+            p.week_starts_at(p.WeekDay(wks))
+            p.week_ends_at(p.WeekDay(_wke(wks)))
+        elif hist == 1:
+            p.week_ends_at(p.WeekDay(_wke(wks)))
+            p.week_starts_at(p.WeekDay(wks))
+        elif hist == 2:
+            p.week_starts_at(p.WeekDay(wks))
+            probe()
+            p.week_ends_at(p.WeekDay(_wke(wks)))
+        else:
+            other = (wks + 3) % 7
+            p.week_starts_at(p.WeekDay(other))
+            p.week_ends_at(p.WeekDay(_wke(other)))
+            probe()
+            p.week_ends_at(p.WeekDay(_wke(wks)))
+            probe()
+            p.week_starts_at(p.WeekDay(wks))
         fn = "start_of" if kind == "startof" else "end_of"
         try:
             r = getattr(x, fn)(unit)
